@@ -38,21 +38,26 @@ def _profile_factory(store):
     return prof
 
 
-def _run_job(args):
-    idx, modname, job, deadline = args
+def _run_task(args):
+    idx, modname, job, deadline, seeds, slice_s = args
     from symx import engine
     mod = importlib.import_module(modname)
     h = mod.HARNESSES[job['harness']]
     opts = dict(job.get('opts') or {})
     left = deadline - time.time()
     if left <= 1.0:
-        return idx, {'skipped': True}
+        return idx, {'skipped': True, 'seeds': seeds}
     opts['max_seconds'] = min(opts.get('max_seconds', 600.0), left)
+    if seeds:
+        opts['witness_cap'] = min(opts.get('witness_cap', 20), 2)
+    else:
+        slice_s = min(slice_s, 1.5)
     funcs = set()
     buf = io.StringIO()
     try:
         with contextlib.redirect_stdout(buf):
-            r = engine.explore(h, job['cfg'], profile=_profile_factory(funcs), **opts)
+            r = engine.explore(h, job['cfg'], profile=_profile_factory(funcs) if not seeds else None,
+                               seeds=seeds, slice_seconds=slice_s, **opts)
     except Exception as ex:  # noqa
         import traceback
         return idx, {'crash': '%s: %s\n%s' % (type(ex).__name__, ex, traceback.format_exc(limit=10))}
@@ -65,6 +70,78 @@ def _run_job(args):
         w['inputs'] = enc(w['inputs'])
         w['obs'] = enc(w['obs'])
     return idx, r
+
+
+def _merge(a, r):
+    """merge task result r into the job result a"""
+    if a is None:
+        return r
+    for k in ('paths', 'dead_paths', 'unexplored_prefixes'):
+        a[k] = a.get(k, 0) + r.get(k, 0)
+    a['wall_s'] = a.get('wall_s', 0) + r.get('wall_s', 0)
+    a['exhaustive'] = a['exhaustive'] and r['exhaustive']
+    for k in ('flags', 'reached', 'covers'):
+        for kk, v in r[k].items():
+            a[k][kk] = a[k].get(kk, 0) + v
+    a['errors'] = (a['errors'] + r['errors'])[:6]
+    a['violations'] = (a['violations'] + r['violations'])[:12]
+    a['witnesses'] = a['witnesses'] + r['witnesses']
+    a['functions'] = sorted(set(a['functions']) | set(r['functions']))
+    for k, v in r['stats'].items():
+        if k == 'max_depth':
+            a['stats'][k] = max(a['stats'][k], v)
+        else:
+            a['stats'][k] += v
+    return a
+
+
+def run_jobs(modname, jobs, deadline, nproc, slice_s, verbose=False):
+    """dynamic scheduling: a task explores a job (or some sub-trees of it) for at
+    most slice_s seconds and hands back the unexplored sibling prefixes, which
+    are re-queued as separate tasks so that one big job spreads over all cores."""
+    from concurrent.futures import ProcessPoolExecutor, wait, FIRST_COMPLETED
+    results = [None] * len(jobs)
+    order = sorted(range(len(jobs)), key=lambda i: -jobs[i].get('weight', 1))
+    queue = [(i, None) for i in order]
+    inflight = {}
+    ctx = mp.get_context('fork')
+    with ProcessPoolExecutor(max_workers=nproc, mp_context=ctx) as ex:
+        while queue or inflight:
+            while queue and len(inflight) < nproc:
+                i, seeds = queue.pop(0)
+                fut = ex.submit(_run_task, (i, modname, jobs[i], deadline, seeds, slice_s))
+                inflight[fut] = (i, seeds)
+            done, _ = wait(list(inflight), return_when=FIRST_COMPLETED)
+            for fut in done:
+                i, seeds = inflight.pop(fut)
+                try:
+                    idx, r = fut.result()
+                except Exception as e:  # noqa
+                    idx, r = i, {'crash': 'worker died: %r' % (e,)}
+                if r.get('skipped'):
+                    if results[i] is None:
+                        results[i] = {'skipped': True}
+                    else:
+                        results[i]['exhaustive'] = False
+                        results[i]['unexplored_prefixes'] += len(seeds or [1])
+                    continue
+                if r.get('crash'):
+                    results[i] = r if results[i] is None or results[i].get('skipped') else dict(results[i], crash=r['crash'])
+                    continue
+                pend = r.pop('pending', [])
+                if results[i] is not None and results[i].get('skipped'):
+                    results[i] = None
+                results[i] = _merge(results[i], r)
+                if pend:
+                    # shallow prefixes (big sub-trees) first, a few prefixes per task
+                    pend.sort(key=len)
+                    nt = max(1, min(len(pend), 2 * nproc))
+                    groups = [pend[g::nt] for g in range(nt)]
+                    # put in front so that a started job finishes before new ones start
+                    queue[0:0] = [(i, g) for g in groups if g]
+                if verbose and not pend:
+                    pass
+    return results
 
 
 def concrete_batch(modname, items, nproc=8):
@@ -176,20 +253,16 @@ def run_property(modname, tier, seed, nproc=None, only=None, verbose=False):
     budget = float(os.environ.get('VERIF_BUDGET_S', budget))
     deadline = t0 + budget
     nproc = nproc or min(16, os.cpu_count() or 1)
-    results = [None] * len(jobs)
-    # big jobs first
-    order = sorted(range(len(jobs)), key=lambda i: -jobs[i].get('weight', 1))
-    ctx = mp.get_context('fork')
-    with ctx.Pool(min(nproc, max(1, len(jobs)))) as pool:
-        for idx, r in pool.imap_unordered(_run_job, [(i, modname, jobs[i], deadline) for i in order]):
-            results[idx] = r
-            if verbose:
-                st = r.get('stats', {})
-                print('  job %d %s %s: paths=%s viol=%s flags=%s err=%s wall=%.1fs%s' % (
-                    idx, jobs[idx]['harness'], json.dumps(jobs[idx]['cfg'], sort_keys=True)[:100],
-                    r.get('paths'), len(r.get('violations', [])), r.get('flags'),
-                    (r.get('errors') or [r.get('crash')])[:1], r.get('wall_s', 0),
-                    '' if r.get('exhaustive', True) else ' NOT-EXHAUSTIVE'), file=sys.stderr)
+    slice_s = 4.0 if tier == 'quick' else 15.0
+    results = run_jobs(modname, jobs, deadline, nproc, slice_s, verbose)
+    if verbose:
+        for idx, r in enumerate(results):
+            r = r or {}
+            print('  job %d %s %s: paths=%s viol=%s flags=%s err=%s cpu=%.1fs%s' % (
+                idx, jobs[idx]['harness'], json.dumps(jobs[idx]['cfg'], sort_keys=True)[:100],
+                r.get('paths'), len(r.get('violations', [])), r.get('flags'),
+                (r.get('errors') or [r.get('crash')])[:1], r.get('wall_s', 0),
+                '' if r.get('exhaustive', True) else ' NOT-EXHAUSTIVE'), file=sys.stderr)
     findings = load_findings()
     harness_errors = []
     tot = dict(paths=0, decisions=0, forced=0, branch_queries=0, assert_queries=0, model_queries=0,
